@@ -28,6 +28,7 @@ type HarnessSpec struct {
 
 	ReplayAttempts int
 	TrustRace      bool
+	QueryLog       string // worker 0 logs its first queries here (cross-solver check)
 }
 
 type PathResult struct {
@@ -265,7 +266,11 @@ type worker struct {
 
 func newWorker(x *Explorer, id int) (*worker, error) {
 	st := NewTermStore()
-	sv, err := NewSolver(st, x.cfg.TimeoutMs)
+	logPath := ""
+	if id == 0 && x.h.QueryLog != "" {
+		logPath = x.h.QueryLog
+	}
+	sv, err := NewSolverLog(st, x.cfg.TimeoutMs, logPath, 400)
 	if err != nil {
 		return nil, err
 	}
